@@ -24,7 +24,13 @@ class SendPdu(PbMessageWrapper):
     def to_packet(self):
         """Convert message to the corresponding scapy packet
         """
-        return Dot15d4(self.pdu)
+        packet = Dot15d4(self.pdu)
+
+        # Set packet metadata (sending options)
+        packet.metadata = Dot15d4Metadata()
+        packet.metadata.channel = self.channel
+        packet.metadata.raw = False
+        return packet
 
     @staticmethod
     def from_packet(packet, channel: int = 11):
@@ -55,7 +61,13 @@ class SendRawPdu(PbMessageWrapper):
     def to_packet(self):
         """Convert message to the corresponding scapy packet
         """
-        return Dot15d4FCS(self.pdu + bytes(pack('<H', self.fcs)))
+        packet = Dot15d4FCS(self.pdu + bytes(pack('<H', self.fcs)))
+
+        # Set packet metadata (sending options)
+        packet.metadata = Dot15d4Metadata()
+        packet.metadata.channel = self.channel
+        packet.metadata.raw = True
+        return packet
 
     @staticmethod
     def from_packet(packet, channel: int = 11):
